@@ -301,6 +301,28 @@ def main(run):
                 {"chain_length": n, "exception": "%s: %s" % (type(e).__name__, str(e)[:200])},
                 {"evaluation-exception", type(e).__name__, "deep-chain"},
             )
+    # relations between numbers of different kinds and sizes: a configuration with very large (valid) user values
+    text = ('mainmenu "big"\n\nconfig RATIO\n    float "ratio"\n    default 1.5\n\nconfig BIG\n    int "big"\n    default 5\n\nconfig HX\n    hex "hx"\n    default 0x10\n\n'
+            'config X1\n    bool "x1"\n    depends on BIG > RATIO\n\nconfig X2\n    bool "x2" if HX >= RATIO\n    default y if RATIO < BIG\n\nconfig X3\n    int "x3"\n    default 1 if BIG = HX\n    default 2\n')
+    for big in ("1" + "0" * 320, "-" + "9" * 400, "7"):
+        for hx in ("0x" + "f" * 300, "0x1"):
+            try:
+                k = kc.build(text, run.scratch)
+                k.syms["BIG"].set_value(big)
+                k.syms["HX"].set_value(hx)
+                for s_ in k.unique_defined_syms:
+                    s_.str_value, s_.visibility, s_.assignable, s_.config_string
+                p_ = os.path.join(run.scratch, "c09_big")
+                k.write_config(p_, save_old=False)
+                k.write_autoconf(p_)
+                kc.reset_report(k)
+                evals += 1
+            except Exception as e:
+                run.report(
+                    "an accepted tree raised %s: %s while evaluating a configuration with a very large number (BIG: %d digits, HX: %d digits)" % (type(e).__name__, str(e)[:120], len(big), len(hx)),
+                    {"kconfig": text, "BIG_digits": len(big), "HX_digits": len(hx), "exception": "%s: %s" % (type(e).__name__, str(e)[:200])},
+                    {"evaluation-exception", type(e).__name__, "huge-value"},
+                )
     run.add("evaluations", evals)
     run.cov["traces_validated_against_impl"] = len(cases) - len(bad)
     run.cov["distinct_nontrivial"] = loops
